@@ -8,7 +8,13 @@
  * Per node the ghost (present in {0,1}, iters in 0..2) with refcount = present + iters >= 1:
  *   present = the key is in the dictionary; iters = iterators parked on the node.
  * 0..2 notifiers on the global list and 0..1 on every node, with arbitrary event masks.
- * Keys: length 1..2 over arbitrary bytes; values: non-NULL tokens. */
+ * Keys: length 1..2 over arbitrary bytes; values: non-NULL tokens.
+ *
+ * The SHAPE (number of nodes, number of global notifiers, per-key notifiers yes/no) is enumerated by the
+ * harness with concrete values (one inlined case per shape, selected by the nondet nd_shape), so that every
+ * pointer of the state is a constant for CBMC's symbolic execution; all DATA (keys, values, presence,
+ * parked-iterator counts, event masks, counts) stay symbolic.  Measured: symbolic shapes make free() inside
+ * the list loops of the real code blow up symbolic execution (> 300 s), concrete shapes run in seconds. */
 #include "os_base.h"
 #include <qb/qbmap.h>
 #include "verif.h"
@@ -16,8 +22,10 @@
 #include "hashtable.c"
 #include "map_ghost.h"
 
+#ifndef HT_ORDER
 #define HT_ORDER 3
 #define HT_NB 8
+#endif
 #define HT_MAXN 3
 
 struct ht_gnode {
@@ -59,7 +67,7 @@ static uint32_t ht_probe_bucket(const char *k)
 #endif
 
 /* one ghost node + its concrete node, appended to bucket `bucket` */
-static void ht_add_node(struct hash_table *t, unsigned i, uint32_t bucket)
+static void ht_add_node(struct hash_table *t, unsigned i, uint32_t bucket, unsigned with_notifier)
 {
 	unsigned j;
 	VERIF_ND(uint8_t, nd_present);
@@ -86,8 +94,8 @@ static void ht_add_node(struct hash_table *t, unsigned i, uint32_t bucket)
 	n->refcount = (uint32_t)nd_present + nd_iters;
 	qb_list_init(&n->notifier_head);
 	/* key notifiers cannot carry the FREE event (qb_map_notify_add refuses it) */
-	ASSUME(nd_nevents < 16);
-	if (nd_nevents != 0) {
+	ASSUME(nd_nevents < 16 && nd_nevents != 0);
+	if (with_notifier) {
 		HG[i].notidx = 2 + (int)i;
 		HG[i].notev = nd_nevents;
 		qb_list_add_tail(&verif_notifier_new(2 + (int)i, nd_nevents)->list, &n->notifier_head);
@@ -99,14 +107,25 @@ static void ht_add_node(struct hash_table *t, unsigned i, uint32_t bucket)
 	qb_list_add_tail(&n->list, &t->hash_buckets[bucket].list_head);
 }
 
-static struct hash_table *ht_build(const char *probe, uint32_t bucket)
+static void ht_add_global_notifiers(struct hash_table *t, unsigned gnot)
+{
+	unsigned i;
+	HG_gnot = gnot;
+	for (i = 0; i < gnot; i++) {
+		VERIF_ND(uint8_t, nd_gevents);
+		ASSUME(nd_gevents < 32 && nd_gevents != 0);
+		HG_gev[i] = nd_gevents;
+		qb_list_add_tail(&verif_notifier_new((int)i, nd_gevents)->list, &t->notifier_head);
+	}
+}
+
+/* shape: nodes in 0..HT_MAXN, gnot in 0..2 global notifiers, nnot = every node has a per-key notifier */
+static struct hash_table *ht_build(uint32_t bucket, unsigned nodes, unsigned gnot, unsigned nnot)
 {
 	unsigned i;
 	size_t present = 0;
 	struct hash_table *t;
-	VERIF_ND(uint8_t, nd_nodes);
 	VERIF_ND(uint32_t, nd_other);
-	VERIF_ND(uint8_t, nd_gnot);
 	/* the table and its HT_NB buckets as ONE typed heap object (cheaper for CBMC than a byte array) */
 	struct ht_storage { struct hash_table t; struct hash_bucket b[HT_NB]; } *st;
 
@@ -131,24 +150,11 @@ static struct hash_table *ht_build(const char *probe, uint32_t bucket)
 	qb_list_init(&t->hash_buckets[bucket].list_head);
 	qb_list_init(&t->notifier_head);
 
-	ASSUME(nd_gnot <= 2);
-	HG_gnot = nd_gnot;
-	for (i = 0; i < 2; i++) {
-		if (i < nd_gnot) {
-			VERIF_ND(uint8_t, nd_gevents);
-			ASSUME(nd_gevents < 32 && nd_gevents != 0);
-			HG_gev[i] = nd_gevents;
-			qb_list_add_tail(&verif_notifier_new(i, nd_gevents)->list, &t->notifier_head);
-		}
-	}
-
-	ASSUME(nd_nodes <= HT_MAXN);
-	HG_n = nd_nodes;
-	for (i = 0; i < HT_MAXN; i++) {
-		if (i < nd_nodes) {
-			ht_add_node(t, i, bucket);
-			present += HG[i].present;
-		}
+	ht_add_global_notifiers(t, gnot);
+	HG_n = nodes;
+	for (i = 0; i < nodes; i++) {
+		ht_add_node(t, i, bucket, nnot);
+		present += HG[i].present;
 	}
 	ASSUME(nd_other <= (1u << 30));
 	HG_other = nd_other;
@@ -162,8 +168,8 @@ static struct hash_table *ht_build(const char *probe, uint32_t bucket)
 static int ht_ghost_find(const char *key)
 {
 	unsigned i;
-	for (i = 0; i < HT_GMAX; i++) {
-		if (i < HG_n && HG[i].present + HG[i].iters > 0 && spec_streq(HG[i].key, key)) {
+	for (i = 0; i < HG_n; i++) {
+		if (HG[i].present + HG[i].iters > 0 && spec_streq(HG[i].key, key)) {
 			return (int)i;
 		}
 	}
@@ -302,13 +308,10 @@ static void ht_check_notified_deferred(void)
 #define HT_B1 2
 #define HT_B2 5
 unsigned HG_n1;   /* ghost nodes 0..HG_n1-1 are in HT_B1 (list order), HG_n1..HG_n-1 in HT_B2 (list order) */
-static struct hash_table *ht_build2(void)
+static struct hash_table *ht_build2(unsigned n1, unsigned n2, unsigned gnot, unsigned nnot)
 {
 	unsigned i;
 	struct hash_table *t;
-	VERIF_ND(uint8_t, nd_n1);
-	VERIF_ND(uint8_t, nd_n2);
-	VERIF_ND(uint8_t, nd_gnot);
 	struct ht_storage { struct hash_table t; struct hash_bucket b[HT_NB]; } *st;
 
 	verif_alloc_never_fails = 1;
@@ -332,23 +335,11 @@ static struct hash_table *ht_build2(void)
 		qb_list_init(&t->hash_buckets[i].list_head);
 	}
 	qb_list_init(&t->notifier_head);
-	ASSUME(nd_gnot <= 2);
-	HG_gnot = nd_gnot;
-	for (i = 0; i < 2; i++) {
-		if (i < nd_gnot) {
-			VERIF_ND(uint8_t, nd_gevents);
-			ASSUME(nd_gevents < 32 && nd_gevents != 0);
-			HG_gev[i] = nd_gevents;
-			qb_list_add_tail(&verif_notifier_new(i, nd_gevents)->list, &t->notifier_head);
-		}
-	}
-	ASSUME(nd_n1 <= 2 && nd_n2 <= 2);
-	HG_n1 = nd_n1;
-	HG_n = (unsigned)nd_n1 + nd_n2;
-	for (i = 0; i < 4; i++) {
-		if (i < HG_n) {
-			ht_add_node(t, i, i < HG_n1 ? HT_B1 : HT_B2);
-		}
+	ht_add_global_notifiers(t, gnot);
+	HG_n1 = n1;
+	HG_n = n1 + n2;
+	for (i = 0; i < n1 + n2; i++) {
+		ht_add_node(t, i, i < n1 ? HT_B1 : HT_B2, nnot);
 	}
 	HG_other = 0;
 	t->count = ht_ghost_present();
@@ -356,3 +347,9 @@ static struct hash_table *ht_build2(void)
 	verif_alloc_calls = 0;
 	return t;
 }
+
+/* shape enumeration of the single-bucket states: 4 node counts x 3 global-notifier counts x per-key notifiers yes/no */
+#define HT_SHAPES 24
+#define HT_SHAPE_NODES(s) ((s) / 6)
+#define HT_SHAPE_GNOT(s) ((s) % 3)
+#define HT_SHAPE_NNOT(s) (((s) / 3) % 2)
